@@ -12,6 +12,8 @@ import (
 	"github.com/medibloc/panacea-core/v2/types/compkey"
 	aoltypes "github.com/medibloc/panacea-core/v2/x/aol/types"
 	"pgregory.net/rapid"
+
+	"verifharness/simnet"
 )
 
 // rawKey is a CompositeKey without any validation, to test compkey itself.
@@ -356,10 +358,20 @@ func TestC18AolKeys(t *testing.T) {
 		}
 		tl := rapid.SampledFrom([]int{1, 2, 35, 69, 70}).Draw(rt, "topic-len")
 		tb := make([]byte, tl)
+		wide := rapid.Bool().Draw(rt, "wide-alphabet")
 		for i := range tb {
-			tb[i] = topicChars[rapid.IntRange(0, len(topicChars)-1).Draw(rt, "tc")]
+			if wide {
+				// any printable ASCII character: the name is used only if the message validator admits it
+				tb[i] = byte(rapid.IntRange(0x20, 0x7e).Draw(rt, "wc"))
+			} else {
+				tb[i] = topicChars[rapid.IntRange(0, len(topicChars)-1).Draw(rt, "tc")]
+			}
 		}
 		topic := string(tb)
+		if (&aoltypes.MsgCreateTopicRequest{TopicName: topic, OwnerAddress: simnet.NewAccount("a0").Bech}).ValidateBasic() != nil {
+			st.label("name not admitted by the validator (skipped)", 1)
+			return
+		}
 		owner, writer := addr("owner"), addr("writer")
 		off := rapid.SampledFrom([]uint64{0, 1, 255, 256, 1 << 32, 1<<63 - 1, 1 << 63, ^uint64(0)}).Draw(rt, "offset")
 		if rapid.Bool().Draw(rt, "random-offset") {
